@@ -455,6 +455,6 @@ const ruleC10 = "payloader: 1-4 Payload calls on one H264Payloader, each an Anne
 func TestC10(t *testing.T) {
 	r := begin(t, "C10", "exploration", ruleC10)
 	defer r.finish()
-	subC10Pay.rapidRun(r, n(12000, 250000), genH264PayCase)
-	subC10Dec.rapidRun(r, n(10000, 150000), genH264DecCase)
+	subC10Pay.rapidRun(r, n(12000, 700000), genH264PayCase)
+	subC10Dec.rapidRun(r, n(10000, 450000), genH264DecCase)
 }
